@@ -958,6 +958,7 @@ def r13_4(ctx: Ctx, rule: str = "R13.4"):
     if te is None or td is None:
         ctx.ob(rule, ex, "index tables", True, "index tables not in the literal-tuple shape", undecided=True)
         _triclinic_test(ctx, rule, du)
+        r13_4_counts(ctx, rule, ex, du)
         return
     ctx.ob(rule, du, "index table %s" % (td[1],), sorted(td[1]) == list(range(9)),
            "writer's table is a permutation of 0..8", node=du.node)
@@ -997,6 +998,7 @@ def r13_4(ctx: Ctx, rule: str = "R13.4"):
     ctx.ob(rule, ex, "reader role=%s writer role=%s" % (re_, rw), {re_, rw} == {"scatter", "gather"},
            "one side scatters by the table and the other gathers by it (inverse permutations)", node=ex.node)
     _triclinic_test(ctx, rule, du)
+    r13_4_counts(ctx, rule, ex, du)
 
 
 def _triclinic_test(ctx: Ctx, rule: str, du: Func):
@@ -1047,6 +1049,167 @@ def _triclinic_test(ctx: Ctx, rule: str, du: Func):
     lims = sorted({const_int(st.value) for st in walk_no_nested(du.node)
                    if isinstance(st, ast.Assign) and const_int(st.value) is not None})
     ctx.extra["box_components_written"] = lims
+
+
+# ---------------------------------------------------------------------------
+# R13.4b how many box numbers the writer can emit vs how many the reader accepts
+# ---------------------------------------------------------------------------
+class _IntSets:
+    """Value sets of small integer expressions inside one function.  `exact` means every member is attained by some
+    input (at most one data-dependent leaf feeds each value; leaves: the position of the first/last non-zero entry,
+    the number of non-zero entries of a vector of known length)."""
+    def __init__(self, fn: ast.AST):
+        self.fn = fn
+        self.defs: Dict[str, List[ast.AST]] = {}
+        for st in walk_no_nested(fn):
+            if isinstance(st, ast.Assign) and len(st.targets) == 1 and isinstance(st.targets[0], ast.Name):
+                self.defs.setdefault(st.targets[0].id, []).append(st.value)
+
+    def length(self, e, depth=0) -> Optional[int]:
+        """number of entries of a 1-D array expression, when the code fixes it"""
+        if depth > 6:
+            return None
+        if isinstance(e, ast.Name) and len(self.defs.get(e.id, [])) == 1:
+            return self.length(self.defs[e.id][0], depth + 1)
+        if isinstance(e, (ast.List, ast.Tuple)):
+            return len(e.elts)
+        if isinstance(e, ast.Subscript):
+            if isinstance(e.slice, ast.Slice):
+                n = self.length(e.value, depth + 1)
+                lo = const_int(e.slice.lower) if e.slice.lower is not None else 0
+                hi = const_int(e.slice.upper) if e.slice.upper is not None else n
+                if n is None or lo is None or hi is None or e.slice.step is not None:
+                    return None
+                lo = lo + n if lo < 0 else lo
+                hi = hi + n if hi < 0 else hi
+                return max(0, min(hi, n) - min(lo, n))
+            idx = e.slice
+            if isinstance(idx, ast.Name) and len(self.defs.get(idx.id, [])) == 1:
+                idx = self.defs[idx.id][0]
+            if isinstance(idx, (ast.List, ast.Tuple)):
+                return len(idx.elts)                       # fancy indexing by a literal table
+            if isinstance(idx, ast.Call) and call_name(idx) in ("array", "asarray") and idx.args and isinstance(idx.args[0], (ast.List, ast.Tuple)):
+                return len(idx.args[0].elts)
+            return None
+        if isinstance(e, ast.Call) and call_name(e) in ("zeros", "ones", "empty") and e.args and const_int(e.args[0]) is not None:
+            return const_int(e.args[0])
+        if isinstance(e, ast.Call) and call_name(e) in ("zeros_like", "copy", "abs", "absolute", "asarray", "array") and e.args:
+            return self.length(e.args[0], depth + 1)
+        return None
+
+    def _nz(self, e, depth):
+        """length of the vector whose non-zero positions `e` lists (flatnonzero(v), nonzero(v)[0], where(v)[0])"""
+        if isinstance(e, ast.Name) and len(self.defs.get(e.id, [])) == 1:
+            return self._nz(self.defs[e.id][0], depth + 1) if depth < 6 else None
+        if isinstance(e, ast.Call) and call_name(e) == "flatnonzero" and len(e.args) == 1:
+            return self.length(e.args[0])
+        if isinstance(e, ast.Subscript) and const_int(e.slice) == 0 and isinstance(e.value, ast.Call) \
+                and call_name(e.value) in ("nonzero", "where") and len(e.value.args) == 1:
+            return self.length(e.value.args[0])
+        return None
+
+    def values(self, e, depth=0):
+        """(set of ints, exact) or None"""
+        if depth > 8:
+            return None
+        k = const_int(e)
+        if k is not None:
+            return {k}, True
+        if isinstance(e, ast.Name):
+            ds = self.defs.get(e.id)
+            if not ds:
+                return None
+            out, ex = set(), True
+            for d in ds:
+                r = self.values(d, depth + 1)
+                if r is None:
+                    return None
+                out |= r[0]
+                ex = ex and r[1]
+            return out, ex
+        if isinstance(e, ast.IfExp):
+            a, b = self.values(e.body, depth + 1), self.values(e.orelse, depth + 1)
+            if a is None or b is None:
+                return None
+            return a[0] | b[0], a[1] and b[1]
+        if isinstance(e, ast.BinOp) and isinstance(e.op, (ast.Add, ast.Sub, ast.Mult)):
+            a, b = self.values(e.left, depth + 1), self.values(e.right, depth + 1)
+            if a is None or b is None:
+                return None
+            f = {ast.Add: lambda x, y: x + y, ast.Sub: lambda x, y: x - y, ast.Mult: lambda x, y: x * y}[type(e.op)]
+            single = len(a[0]) == 1 or len(b[0]) == 1
+            return {f(x, y) for x in a[0] for y in b[0]}, a[1] and b[1] and single
+        if isinstance(e, ast.Subscript) and const_int(e.slice) in (-1, 0):
+            n = self._nz(e.value, 0)
+            if n:
+                return set(range(n)), True                 # position of the last / first non-zero entry
+        if isinstance(e, ast.Attribute) and e.attr == "size":
+            n = self._nz(e.value, 0)
+            if n is not None:
+                return set(range(n + 1)), True
+        if isinstance(e, ast.Call) and call_name(e) == "len" and len(e.args) == 1:
+            n = self._nz(e.args[0], 0)
+            if n is not None:
+                return set(range(n + 1)), True
+            n = self.length(e.args[0])
+            if n is not None:
+                return {n}, True
+        if isinstance(e, ast.Call) and call_name(e) == "count_nonzero" and len(e.args) == 1:
+            n = self.length(e.args[0])
+            if n is not None:
+                return set(range(n + 1)), True
+        if isinstance(e, ast.Call) and call_name(e) in ("int", "bool") and len(e.args) == 1:
+            return {0, 1}, True
+        return None
+
+
+def r13_4_counts(ctx: Ctx, rule: str, ex: Func, du: Func):
+    """If the reader refuses box lines by the number of values they hold, every count the writer can emit must be one it
+    accepts (two cooperating edits: a writer that emits "as many components as are set" and a reader that insists on 3
+    or 9 each round-trip alone)."""
+    from .exmap import eval_size_test
+    # reader: raising guards on len(<values>)
+    guards = [n_ for n_ in walk_no_nested(ex.node) if isinstance(n_, ast.If) and branch_raises(n_.body)
+              and any(isinstance(c_, ast.Call) and call_name(c_) == "len" for c_ in ast.walk(n_.test))]
+    names = {norm(c_) for g_ in guards for c_ in ast.walk(g_.test) if isinstance(c_, ast.Call) and call_name(c_) == "len"}
+    size_names = set(names) | {norm(st.targets[0]) for st in walk_no_nested(ex.node) if isinstance(st, ast.Assign)
+                               and isinstance(st.value, ast.Call) and call_name(st.value) == "len"}
+    accepted = set(range(0, 13))
+    decided = True
+    for g_ in guards:
+        for n in list(accepted):
+            tv = eval_size_test(g_.test, n, size_names)
+            if tv is None:
+                decided = False
+            elif tv:
+                accepted.discard(n)
+    # writer: the upper bound of the slice of the reordered vector that is formatted
+    iv = _IntSets(du.node)
+    lim = None
+    for sub in ast.walk(du.node):
+        if isinstance(sub, ast.Subscript) and isinstance(sub.slice, ast.Slice) and sub.slice.lower is None and sub.slice.upper is not None \
+                and sub.slice.step is None and not isinstance(sub.ctx, ast.Store):
+            par_ok = True
+            lim = sub.slice.upper
+    w = iv.values(lim) if lim is not None else None
+    if not guards:
+        ctx.ob(rule, ex, "box line counts: reader accepts any count, writer emits %s" % (sorted(w[0]) if w else "?"), True,
+               "the reader accepts every number of box values the writer can emit (it does not refuse lines by their count)", node=ex.node)
+        return
+    if not decided or w is None:
+        ctx.ob(rule, ex, guards[0], True, "the reader refuses box lines by their number of values; the counts the writer can emit "
+               "(%s) or the reader's test are not in a recognised form; agreement not decided on this tree" % (norm(lim) if lim is not None else "?"),
+               undecided=True, node=guards[0])
+        return
+    bad = sorted(w[0] - accepted)
+    if bad and not w[1]:
+        ctx.ob(rule, ex, guards[0], True, "the writer's component count may take values the reader refuses (%s) but attainability is not "
+               "established; not decided on this tree" % bad, undecided=True, node=guards[0])
+        return
+    ctx.ob(rule, ex, "box line counts: reader accepts %s, writer emits %s" % (sorted(accepted), sorted(w[0])), not bad,
+           "every number of box values the writer can emit is accepted by the reader"
+           + ("" if not bad else " -- the writer emits %s values for some boxes (e.g. only the first off-diagonal terms set) and the "
+              "reader raises on them: a file this package wrote cannot be opened" % bad), node=guards[0])
 
 
 # ---------------------------------------------------------------------------
